@@ -486,7 +486,7 @@ package sizes
 //@ property C02: (*Graph).RegisterBlob (*Graph).RegisterCommit (*Graph).finalizeTreeSize (*treeRecord).initialize
 //@ property C03: (*CommitSize).addParent (*Graph).GetCommitSize (*Graph).GetTreeSize (*Graph).RegisterCommit (*HistorySize).recordCommit (*HistorySize).recordTag newTagRecord (*tagRecord).addListener (*Graph).RequireTagSize (*Graph).finalizeTagSize (*tagRecord).maybeFinalize (*tagRecord).initialize (*tagRecord).initialize$1 (*Graph).RegisterTag
 //@ property C04: newTreeRecord (*treeRecord).addListener (*Graph).RequireTreeSize (*Graph).finalizeTreeSize (*treeRecord).maybeFinalize (*treeRecord).initialize (*treeRecord).initialize$1 (*Graph).RegisterTree (*Graph).GetBlobSize
-//@ property C09: (*treeRecord).initialize (*treeRecord).initialize$1 (*tagRecord).initialize (*tagRecord).initialize$1 (*Graph).RequireTreeSize (*Graph).RequireTagSize
+//@ property C09: ScanRepositoryUsingGraph$1$1 (*treeRecord).initialize (*treeRecord).initialize$1 (*tagRecord).initialize (*tagRecord).initialize$1 (*Graph).RequireTreeSize (*Graph).RequireTagSize
 //@ property C07: (*HistorySize).recordReference (*HistorySize).recordReferenceGroup
 
 // ---------------------------------------------------------------- graph.go: orchestration (C01, C10, C18)
